@@ -118,6 +118,16 @@ def run(ctx):
         reach_ctor = any(ctor and ctor[0].bb in root.reachable_from(s) for (_, s) in exits)
         ctx.require(bool(exits) and reach_ctor, "R-C19-3", "loop-exit", "the event loop has %d exits and one reaches Graph::new_from_nodes_and_edges" % len(exits), "the event loop cannot reach the constructor", loc_str(root.blocks[h].term.span))
 
+    # ------------------------------------------------------------------ R-C19-5 the result is built by the mutators
+    ctx.rule("R-C19-5", "the graph the reader returns is built by Graph::new_from_nodes_and_edges, which changes it only through add_node / add_edge (so the document's elements are subject to the specs, C01)")
+    from graphrules import direct_index_access
+
+    ctor_b = prog.one("creation::Graph::new_from_nodes_and_edges")
+    direct = direct_index_access(prog)
+    ctx.require(ctor_b.path not in direct, "R-C19-5", "constructor-through-mutators", "the constructor touches no index field itself", "new_from_nodes_and_edges writes the index fields %s itself instead of going through add_node / add_edge: a document that repeats a node id yields a graph holding that node twice" % sorted(direct.get(ctor_b.path, {})), loc_str(ctor_b.span))
+    rets = [t for t in root.calls() if t.callee and t.callee.target_path(prog) == ctor_b.path]
+    ctx.require(len(rets) >= 1, "R-C19-5", "reader-uses-constructor", "the reader hands its nodes and edges to the checked constructor", "the reader no longer builds its result with new_from_nodes_and_edges", loc_str(root.span))
+
     # ------------------------------------------------------------------ R-C19-4 declared directedness
     ctx.rule("R-C19-4", "the constructor's specs.directed depends on the document's edgedefault attribute; literal 'directed' selects true")
     fl = flows.of(root)
